@@ -33,17 +33,43 @@ class InternalError(Exception):
     """the harness or the reference model is inconsistent with itself: never a verdict about pyasn1"""
 
 
-def guarded(R, fn, rec, feats, idx):
+class CaseTimeout(BaseException):
+    """raised by the per-case CPU watchdog (BaseException: library code that catches Exception cannot swallow it)"""
+
+
+_HANGS = [0]
+
+
+def _case_timeout(signum, frame):
+    raise CaseTimeout()
+
+
+def guarded(R, fn, rec, feats, idx, cpu_limit=None):
     """Run one case; any exception other than InternalError escaping a case on the checked tree is a
-    violation (the unchanged tree produces none), reported with the innermost pyasn1 frame as site."""
+    violation (the unchanged tree produces none), reported with the innermost pyasn1 frame as site.
+    cpu_limit: seconds of process CPU time (ITIMER_VIRTUAL, so machine load cannot trip it) after which the case is
+    reported as not terminating; after two such cases the worker runs no further cases (the check has failed)."""
+    import signal
+    if cpu_limit and _HANGS[0] >= 2:
+        R.extra['cases_not_run_after_hangs'] += 1
+        return
+    if cpu_limit:
+        signal.signal(signal.SIGVTALRM, _case_timeout)
+        signal.setitimer(signal.ITIMER_VIRTUAL, cpu_limit)
     try:
         fn()
+    except CaseTimeout:
+        _HANGS[0] += 1
+        R.violation('case.hang', rec, 'no termination within %s s of CPU time' % cpu_limit, 'the case terminates', 'harness', feats, idx)
     except InternalError:
         raise
     except RecursionError as e:
         R.violation('case.exception:RecursionError', rec, exc_text(e), 'no exception escapes the case', pyasn1_site(e), feats, idx)
     except Exception as e:
         R.violation('case.exception:' + type(e).__name__, rec, exc_text(e), 'no exception escapes the case', pyasn1_site(e), feats, idx)
+    finally:
+        if cpu_limit:
+            signal.setitimer(signal.ITIMER_VIRTUAL, 0)
 
 
 def digest64(obj):
